@@ -304,6 +304,8 @@ def C(x):
         if x in (float('inf'), float('-inf')):
             raise Inconclusive(f"non-finite constant {x} entered the symbolic computation")
         return Sym(Rat.const(Fraction(float(x))))
+    if isinstance(x, np.integer):
+        x = int(x)
     return Sym(Rat.const(Fraction(x)))
 
 
